@@ -189,6 +189,12 @@ def main(run):
                 add("derive-normalized", {"mode": "derive", "struct_name": cam, "normalization": "rust"}, False, {"name": op["name"]})
                 if not any(o["name"] == cam for o in doc["operations"]):
                     add("derive-needs-normalization", {"mode": "derive", "struct_name": cam}, False, {"name": op["name"]})
+        # the library's `struct_name` option names the implementation target; it is not a selection: with no operation name,
+        # CLI / library form still gives one module per operation, with one it gives that one
+        add("all-operations", {"mode": "cli", "struct_name_only": doc["operations"][-1]["name"]}, di % 2 == 1, {"struct_name_set": True})
+        if len(doc["operations"]) > 1:
+            add("selected-operation", {"mode": "cli", "operation_name": doc["operations"][0]["name"], "struct_name_only": doc["operations"][-1]["name"]}, False,
+                {"name": doc["operations"][0]["name"], "struct_name_set": True})
         add("selected-nonexistent", {"mode": "cli", "operation_name": "ZzNoSuchOperation"}, False)
         add("derive-no-match", {"mode": "derive", "struct_name": "ZzNoSuchOperation"}, False)
         add("derive-no-match", {"mode": "derive", "struct_name": "ZzNoSuchOperation", "normalization": "rust"}, False)
@@ -286,7 +292,7 @@ def main(run):
                             break
                     if not sym and mode.startswith("derive") and structs:
                         sym = "derive mode emitted a struct declaration %s" % structs
-                    if not sym and mode in ("all-operations", "selected-operation") and len(structs) != len(order):
+                    if not sym and mode in ("all-operations", "selected-operation") and len(structs) != len(order) and not m.get("struct_name_set"):
                         sym = "CLI mode: %d struct declarations for %d modules" % (len(structs), len(order))
         if sym:
             run.violation(case, sym)
